@@ -85,7 +85,7 @@ def run(ctx):
     eq = tag.methods.get("__eq__")
     folds = eq is not None and any(isinstance(c, ast.Call) and call_name(c) in ("casefold", "lower") for c in ast.walk(eq.node))
     sorts = [c for c in walk_no_nested(prod.node) if isinstance(c, ast.Call) and call_name(c) in ("sort", "sorted")]
-    ctx.floor("R4.1", "orderings in the sorted-view producer", len(sorts), 2)
+    ctx.floor("R4.1", "orderings in the sorted-view producer", len(sorts), 1)
     for c in sorts:
         kf = key_functions(prod, c)
         ctx.count_sites()
